@@ -67,7 +67,10 @@ class Signal(object):
         universe_assets = self.universe.get_assets(dt)
 
         # TODO: Assume universe never decreases for now
-        extra_assets = list(set(universe_assets) - set((self.assets)))
+        extra_assets = [
+            asset for asset in universe_assets
+            if asset not in self.assets
+        ]
         for extra_asset in extra_assets:
             self.assets.append(extra_asset)
 
